@@ -134,7 +134,9 @@ Fixpoint of_type (t : ty) : option value :=
   | TInt => Some (VInt 0)
   | TFloat => Some (VFloat F_ZERO)
   | TString => Some (VString [])
-  | TFun ps r => Some (VFun 0 ps r)   (* Function::of_type never fails; identity 0 = "default function" *)
+  | TFun ps r =>
+      (* Function::of_type: a function returning the default of its result type; identity 0 = "default function" *)
+      option_map (fun _ => VFun 0 ps r) (of_type r)
   | TArr e => Some (VArr e [])
   | TTup ts =>
       option_map VTup
